@@ -310,6 +310,18 @@ pub fn run(a: &Args) {
                     let (o, pay_ok, bytes) = match built {
                         Ok(bytes) => {
                             let end = bytes.len() - payload.len();
+                            // history: a parse abandoned with an error part-way through the attributes (a cut stream, a
+                            // non-tag octet) happened on this thread just before
+                            if end > 9 {
+                                let cut = 9 + crate::mix(ci + var) % (end - 9);
+                                let _ = parse_sync(&bytes[..cut], cut, (ci + var) % 2 == 0);
+                                if (ci + var) % 3 == 0 {
+                                    let mut bad = bytes[..end].to_vec();
+                                    let k = bad.len() - 1;
+                                    bad[k] = 0x7f;
+                                    let _ = parse_sync(&bad, bad.len(), false);
+                                }
+                            }
                             let (o, p) = parse_sync(&bytes, end, false);
                             (o, p, bytes)
                         }
@@ -380,6 +392,18 @@ pub fn run(a: &Args) {
                                     "leak": t.contains("payload that must not")}), json!({"json": t.chars().take(2000).collect::<String>()})));
                             }
                             Err(e) => evs.push((json!({"what": "msg", "ok": false, "msg": original, "back": {}, "paylen": 0, "error": e}), json!({}))),
+                        }
+                        // history: the deserialised message receives an attribute through add() and goes through serde again
+                        if let Ok(mut mid) = serde_json::to_string(&req).map_err(|e| e.to_string()).and_then(|t| serde_json::from_str::<IppRequestResponse>(&t).map_err(|e| e.to_string())) {
+                            let tags: Vec<DelimiterTag> = mid.attributes().groups().iter().map(|g| g.tag()).collect();
+                            let tag = if tags.is_empty() { DelimiterTag::OperationAttributes } else { tags[crate::mix(ci) % tags.len()] };
+                            mid.attributes_mut().add(tag, IppAttribute::new("added-after-deserialising", IppValue::Integer(ci as i32)));
+                            let expect = msg_json(&mid);
+                            match serde_json::to_string(&mid).map_err(|e| e.to_string()).and_then(|t| serde_json::from_str::<IppRequestResponse>(&t).map_err(|e| e.to_string())) {
+                                Ok(back) => evs.push((json!({"what": "msg", "ok": true, "msg": expect, "back": msg_json(&back), "paylen": 0, "leak": false}),
+                                    json!({"how": "serialise, deserialise, add(), serialise, deserialise"}))),
+                                Err(e) => evs.push((json!({"what": "msg", "ok": false, "msg": expect, "back": {}, "paylen": 0, "error": e}), json!({}))),
+                            }
                         }
                         // attributes alone
                         let at = serde_json::to_string(req.attributes()).map_err(|e| e.to_string());
@@ -479,6 +503,44 @@ pub fn run(a: &Args) {
                                         sink.emit(&json!({"ev": "enc", "case": format!("{}-again", cid), "msg": m3.json(), "hdr": hdr_json(tz2.hdr),
                                             "toks": toks_json(&tz2.toks), "term": tz2.term, "rest": rest2}),
                                             &json!({"case": format!("{}-again", cid), "what": "encode, add(), encode again"}));
+                                    }
+                                }
+                                if _trial == 0 && ci % 4 == 2 && !msg.groups.is_empty() && !msg.groups[0].attrs.is_empty() {
+                                    // history: an attribute taken out through the group's own map (remove / clear / retain),
+                                    // put back with add(), encode: the message is the one we started from
+                                    let tag = msg.groups[0].tag;
+                                    let which = ci / 4 % msg.groups[0].attrs.len();
+                                    let (name, val) = msg.groups[0].attrs[which].clone();
+                                    let how = ci / 4 % 3;
+                                    let others: Vec<(String, AV)> = msg.groups[0].attrs.iter().filter(|(n, _)| *n != name).cloned().collect();
+                                    let m0 = msg.clone();
+                                    if let Ok(again) = catch_unwind(AssertUnwindSafe(move || {
+                                        let mut req = m0.to_ipp();
+                                        let _ = req.to_bytes();
+                                        {
+                                            let g = &mut req.attributes_mut().groups_mut()[0];
+                                            match how {
+                                                0 => {
+                                                    g.attributes_mut().remove(&name);
+                                                }
+                                                1 => g.attributes_mut().retain(|k, _| *k != name),
+                                                _ => g.attributes_mut().clear(),
+                                            }
+                                        }
+                                        let t = DelimiterTag::from_u8(tag).unwrap();
+                                        if how == 2 {
+                                            for (n, v) in &others {
+                                                req.attributes_mut().add(t, IppAttribute::new(n, v.to_ipp()));
+                                            }
+                                        }
+                                        req.attributes_mut().add(t, IppAttribute::new(&name, val.to_ipp()));
+                                        req.to_bytes().to_vec()
+                                    })) {
+                                        let tz2 = tokenize(&again);
+                                        let rest2 = tz2.end.map(|e| again.len() - e).unwrap_or(0);
+                                        sink.emit(&json!({"ev": "enc", "case": format!("{}-removed-readded", cid), "msg": msg.json(), "hdr": hdr_json(tz2.hdr),
+                                            "toks": toks_json(&tz2.toks), "term": tz2.term, "rest": rest2}),
+                                            &json!({"case": format!("{}-removed-readded", cid), "what": "encode, remove / retain / clear through attributes_mut(), add() again, encode"}));
                                     }
                                 }
                                 if _trial == 0 && ci % 4 == 1 && !msg.groups.is_empty() {
